@@ -690,6 +690,28 @@ class TensorDictSequential(TensorDictModule):
         self.module.__delitem__(index)
         self._recompute_keys()
 
+    def append(self, module: TensorDictModuleBase) -> TensorDictSequential:
+        """Appends a module to a list-based sequence (the advertised keys are recomputed)."""
+        return self.insert(len(self), module)
+
+    def insert(self, index: int, module: TensorDictModuleBase) -> TensorDictSequential:
+        """Inserts a module in a list-based sequence (the advertised keys are recomputed)."""
+        if not isinstance(self.module, nn.ModuleList):
+            raise TypeError(
+                "insert / append / extend are only available for list-based sequences; "
+                "use seq[key] = module for a sequence built from a dictionary."
+            )
+        (module,) = self._convert_modules([module])
+        self.module.insert(index, module)
+        self._recompute_keys()
+        return self
+
+    def extend(self, modules) -> TensorDictSequential:
+        """Appends several modules to a list-based sequence (the advertised keys are recomputed)."""
+        for module in list(modules):
+            self.insert(len(self), module)
+        return self
+
     def _recompute_keys(self) -> None:
         # the advertised in_keys / out_keys follow the modules: after an item assignment or deletion
         # they are computed again (a selection of out_keys keeps the keys that are still written)
